@@ -53,6 +53,7 @@ func checkC02(ctx *Ctx, r *Report) {
 	c02EqualityTypeChecks(ctx, r)
 	c02ReservedWordTables(ctx, r)
 	c02GoImportInScope(ctx, r)
+	c02GoBareTypeNames(ctx, r)
 }
 
 // kindConsts: the constants of ast.Kind / ast.ScalarKind.
@@ -2114,4 +2115,128 @@ func c02GoImportInScope(ctx *Ctx, r *Report) {
 	}
 	r.Count("uses of template-managed Go imports", uses)
 	r.Floor("uses of template-managed Go imports", 20)
+}
+
+// c02GoBareTypeNames: `formatObjectName` gives the bare Go name of an object — right for the object a
+// file declares (its own name), wrong for a name that designates some other object, which may live in another
+// package (a discriminator-mapping entry, a ReferredType): those go through the package-aware formatters
+// (formatRawRef / formatType). Every use in the Go templates is classified by where its operand comes from.
+func c02GoBareTypeNames(ctx *Ctx, r *Report) {
+	ts, err := loadTemplates(ctx, "golang")
+	if err != nil {
+		r.Undecided("cannot parse golang templates: %v", err)
+		return
+	}
+	selfName := func(idents []string) bool {
+		if len(idents) < 2 {
+			return false
+		}
+		last := idents[len(idents)-1]
+		if last != "Name" && last != "BuilderName" {
+			return false
+		}
+		for _, id := range idents[:len(idents)-1] {
+			switch id {
+			case "Ref", "Type", "Types", "Branches", "SelfRef", "For":
+				return false
+			}
+		}
+		return true
+	}
+	uses := 0
+	for _, name := range ts.names() {
+		tree := ts.trees[name]
+		// variables bound by a range (elements of a collection) and by plain declarations
+		rangeVars := map[string]bool{}
+		declared := map[string]*parse.PipeNode{}
+		walkTmpl(tree.Root, func(n parse.Node) bool {
+			switch x := n.(type) {
+			case *parse.RangeNode:
+				for _, d := range x.Pipe.Decl {
+					rangeVars[d.Ident[0]] = true
+				}
+			case *parse.PipeNode:
+				for _, d := range x.Decl {
+					if _, seen := declared[d.Ident[0]]; !seen {
+						declared[d.Ident[0]] = x
+					}
+				}
+			}
+			return true
+		})
+		seen := map[string]int{}
+		var classify func(n parse.Node, depth int) (bool, string)
+		classify = func(n parse.Node, depth int) (bool, string) {
+			switch x := n.(type) {
+			case *parse.FieldNode:
+				if selfName(append([]string{"."}, x.Ident...)) {
+					return true, "the name of the object being declared"
+				}
+				return false, "a field that is not the declared object's own name"
+			case *parse.VariableNode:
+				if len(x.Ident) > 1 {
+					if selfName(x.Ident) {
+						return true, "the name of the object being declared"
+					}
+					return false, "a field that is not the declared object's own name"
+				}
+				if rangeVars[x.Ident[0]] {
+					return false, "an element of a collection (range variable): it names some other object, possibly of another package"
+				}
+				if p := declared[x.Ident[0]]; p != nil && depth < 4 && len(p.Cmds) == 1 && len(p.Cmds[0].Args) == 1 {
+					return classify(p.Cmds[0].Args[0], depth+1)
+				}
+				return false, "a variable of unknown origin"
+			case *parse.PipeNode:
+				if len(x.Cmds) == 1 && len(x.Cmds[0].Args) == 1 {
+					return classify(x.Cmds[0].Args[0], depth+1)
+				}
+			}
+			return false, "an operand that is not recognised"
+		}
+		walkTmpl(tree.Root, func(n parse.Node) bool {
+			p, ok := n.(*parse.PipeNode)
+			if !ok {
+				return true
+			}
+			for i, cmd := range p.Cmds {
+				if len(cmd.Args) == 0 {
+					continue
+				}
+				id, ok := cmd.Args[0].(*parse.IdentifierNode)
+				if !ok || id.Ident != "formatObjectName" {
+					continue
+				}
+				var operand parse.Node
+				switch {
+				case len(cmd.Args) == 2:
+					operand = cmd.Args[1]
+				case len(cmd.Args) == 1 && i > 0 && len(p.Cmds[i-1].Args) == 1:
+					operand = p.Cmds[i-1].Args[0]
+				}
+				uses++
+				txt := "?"
+				if operand != nil {
+					txt = operand.String()
+				}
+				key := fmt.Sprintf("golang %s formatObjectName(%s)", name, txt)
+				seen[key]++
+				cons := key
+				if seen[key] > 1 {
+					cons = fmt.Sprintf("%s #%d", key, seen[key])
+				}
+				good, why := false, "an operand that is not recognised"
+				if operand != nil {
+					good, why = classify(operand, 0)
+				}
+				where := ts.posOf(ctx, name, p)
+				r.Check(good, "skeleton/go-bare-type-name", cons, token.NoPos,
+					where+": formatObjectName is applied to "+why,
+					where+": formatObjectName (bare name, no package) is applied to "+why+" — for an object of another package the emitted Go names a type the file's package does not define (`undefined: Cat`); name it through formatRawRef / formatType with the branch's reference")
+			}
+			return true
+		})
+	}
+	r.Count("formatObjectName uses in Go templates", uses)
+	r.Floor("formatObjectName uses in Go templates", 30)
 }
